@@ -77,6 +77,157 @@ def A1_inventory(rep, flow):
     for m, n in inv["module"]:
         rep.ok("A1", 1, nontrivial=(m.name, n), sample=f"module binding {m.name}.{n}")
     for f, d in inv["decorated"]:
-        rep.note(f"{f.fq} is decorated with {d}: its result is shared between calls; A3 must see a copy at every public boundary")
+        rep.note(f"{f.fq} is decorated with {d}: its result is shared between calls")
+        cached_result_rule(rep, flow, f, d)
     for f, d in inv["defaults"]:
         rep.note(f"{f.fq} has a mutable default argument {d}: reported only if it is mutated (A5) or escapes (A3)")
+
+
+IMMUTABLE_ANN = {"int", "str", "bool", "float", "bytes", "None", "complex", "frozenset"}
+COPIERS = {"copy", "deepcopy", "list", "tuple", "dict", "set", "array", "asarray_copy"}
+
+
+def _returns_immutable(f):
+    """True / False / None(unknown) - judged from the annotation and the return expressions"""
+    if f.node.returns is not None:
+        a = ast.unparse(f.node.returns).strip("'\"")
+        base = a.split("[")[0].split(".")[-1]
+        if base in IMMUTABLE_ANN:
+            return True
+        if base in ("Tuple", "tuple"):
+            inner = a[a.index("[") + 1:-1] if "[" in a else ""
+            parts = [x.strip().split("[")[0].split(".")[-1] for x in inner.split(",")] if inner else []
+            return True if parts and all(x in IMMUTABLE_ANN or x == "..." for x in parts) else False
+        return False
+    kinds = set()
+    for n in ast.walk(f.node):
+        if isinstance(n, ast.Return) and n.value is not None:
+            v = n.value
+            if isinstance(v, ast.Constant) or isinstance(v, (ast.Compare, ast.BoolOp)) or (isinstance(v, ast.JoinedStr)):
+                kinds.add(True)
+            elif isinstance(v, ast.Call) and isinstance(v.func, ast.Name) and v.func.id in ("int", "str", "bool", "float", "len", "sum", "frozenset"):
+                kinds.add(True)
+            else:
+                kinds.add(None)
+    if kinds == {True}:
+        return True
+    return None
+
+
+def cached_result_rule(rep, flow, f, deco):
+    """a memoised function hands the SAME object to every later caller: it must be immutable, or every
+    use of the result in the package must copy it before storing, returning or mutating it"""
+    prog = flow.prog
+    from . import absint, abscalls
+    if absint.Interp(prog).relevant(f) or f.module.name in abscalls.GLUE_MODULES:
+        rep.note(f"{f.fq}: memoised function inside the interpreted closure - escapes and mutations of its result are decided by A3/A5")
+        return
+    imm = _returns_immutable(f)
+    if imm is True:
+        rep.ok("A1", 1, nontrivial=(f.fq, "cached-immutable"), sample=f"{f.fq} @{deco}: returns an immutable value")
+        return
+    public = not f.name.startswith("_") and (f.cls is None or not f.cls.name.startswith("_"))
+    if public:
+        rep.finding("A1", f"{f.fq}:cached-mutable-public", f"{pyfacts.where(f, f.node)}: public function {f.qualname} is memoised (@{deco}) and returns a mutable object: every caller gets the same object, so a caller mutating one result changes all later results for the same arguments")
+        return
+    # private: look at every use of the result
+    leaks = []
+    n_sites = 0
+    for m in prog.modules.values():
+        for g in m.all_funcs:
+            types = prog.local_types(g)
+            for call, r in prog.call_sites(g):
+                if not (r and r[0] == "func" and r[1] is f):
+                    continue
+                n_sites += 1
+                leaks += _result_uses(g, call)
+    if leaks:
+        for (g, node, why) in leaks:
+            rep.finding("A1", f"{g.fq}:cached-result:{pyfacts.norm_stmt(node)}", f"{pyfacts.where(g, node)}: the memoised result of {f.qualname} (@{deco}) {why} without a copy [{pyfacts.norm_stmt(node)}]: objects built by later calls share it")
+    elif n_sites == 0:
+        rep.note(f"{f.fq} is memoised but never called inside the package")
+    else:
+        rep.ok("A1", 1, nontrivial=(f.fq, "cached-private"), sample=f"{f.fq} @{deco}: {n_sites} call site(s), result only read or copied")
+
+
+def _is_copy_call(e):
+    if isinstance(e, ast.Call):
+        name = e.func.attr if isinstance(e.func, ast.Attribute) else (e.func.id if isinstance(e.func, ast.Name) else "")
+        return name in COPIERS or name in ("astype",) and False
+    return False
+
+
+def _result_uses(g, call):
+    """how the value of `call` (inside function g) is used: returns [(g, node, why)] for escaping / mutating uses"""
+    out = []
+    parent = {}
+    for n in ast.walk(g.node):
+        for c in ast.iter_child_nodes(n):
+            parent[id(c)] = n
+    tainted = set()
+    # names bound from the call (directly or by tuple unpacking)
+    p = parent.get(id(call))
+    if isinstance(p, ast.Assign):
+        for t in p.targets:
+            for x in ast.walk(t):
+                if isinstance(x, ast.Name):
+                    tainted.add(x.id)
+                if isinstance(x, ast.Attribute) and isinstance(x.ctx, ast.Store):
+                    out.append((g, p, "is stored in an attribute"))
+    elif isinstance(p, ast.Return):
+        out.append((g, p, "is returned"))
+    elif isinstance(p, ast.Attribute) and isinstance(parent.get(id(p)), ast.Call) and parent[id(p)].func is p and p.attr in COPIERS:
+        return out
+    elif isinstance(p, ast.Call) and _is_copy_call(p):
+        return out
+    # propagate through simple re-bindings, then look at the uses of tainted names
+    for _ in range(3):
+        for n in ast.walk(g.node):
+            if isinstance(n, ast.Assign) and isinstance(n.value, (ast.Name, ast.Subscript)):
+                base = n.value
+                while isinstance(base, ast.Subscript):
+                    base = base.value
+                if isinstance(base, ast.Name) and base.id in tainted:
+                    for t in n.targets:
+                        if isinstance(t, ast.Name):
+                            tainted.add(t.id)
+    for n in ast.walk(g.node):
+        if isinstance(n, ast.Assign):
+            v = n.value
+            base = v
+            while isinstance(base, ast.Subscript):
+                base = base.value
+            if isinstance(base, ast.Name) and base.id in tainted:
+                for t in n.targets:
+                    if isinstance(t, ast.Attribute):
+                        out.append((g, n, "is stored in an attribute"))
+                    if isinstance(t, ast.Subscript):
+                        out.append((g, n, "is stored in a container"))
+            for t in n.targets:
+                b = t
+                hit_sub = False
+                while isinstance(b, ast.Subscript):
+                    b = b.value
+                    hit_sub = True
+                if hit_sub and isinstance(b, ast.Name) and b.id in tainted:
+                    out.append((g, n, "is written through a subscript"))
+        elif isinstance(n, ast.AugAssign):
+            b = n.target
+            while isinstance(b, ast.Subscript):
+                b = b.value
+            if isinstance(b, ast.Name) and b.id in tainted:
+                out.append((g, n, "is modified by an in-place operator"))
+        elif isinstance(n, ast.Return) and n.value is not None:
+            for x in ([n.value] + (list(n.value.elts) if isinstance(n.value, (ast.Tuple, ast.List)) else [])):
+                b = x
+                while isinstance(b, ast.Subscript):
+                    b = b.value
+                if isinstance(b, ast.Name) and b.id in tainted:
+                    out.append((g, n, "is returned"))
+        elif isinstance(n, ast.Call) and isinstance(n.func, ast.Attribute) and n.func.attr in MUTATORS:
+            b = n.func.value
+            while isinstance(b, ast.Subscript):
+                b = b.value
+            if isinstance(b, ast.Name) and b.id in tainted:
+                out.append((g, n, f"is mutated by .{n.func.attr}()"))
+    return out
